@@ -320,6 +320,26 @@ def run_qha(case):
                             return fail("changed-by-writer", "after %s() the object reports other values (max change %.3g)" % (nm, np.abs(a_ - b_).max() if a_.shape == b_.shape else -1))
             finally:
                 os.chdir(cwd)
+    # history: the analysis run again on the same object (QHA.run is public) still returns the equation's values
+    core = getattr(qha, "_qha", None)
+    if core is not None and hasattr(core, "run"):
+        first = [np.array(qha.volume_temperature), np.array(qha.gibbs_temperature), np.array(qha.bulk_modulus_temperature), np.array(qha.thermal_expansion)]
+        try:
+            import contextlib as _cl2
+            import io as _io2
+
+            with _cl2.redirect_stdout(_io2.StringIO()):
+                core.run()
+        except Exception as ex:
+            return fail("rerun-raised", "second QHA.run() on the same object: %s: %s" % (type(ex).__name__, str(ex)[:100]))
+        again = [np.array(qha.volume_temperature), np.array(qha.gibbs_temperature), np.array(qha.bulk_modulus_temperature), np.array(qha.thermal_expansion)]
+        for nm_, a_, b_ in zip(("V(T)", "G(T)", "B(T)", "beta(T)"), first, again):
+            if a_.shape != b_.shape or np.abs(a_ - b_).max() > 1e-9 * max(1.0, np.abs(a_).max()):
+                return fail("changed-by-rerun", "after a second QHA.run() on the same object %s differs (max change %.3g): the run is not a function of the inputs" % (
+                    nm_, np.abs(a_ - b_).max() if a_.shape == b_.shape else -1))
+        if not np.array_equal(el_in, el_before):
+            return fail("input-modified", "the electronic-energy array handed in was modified by a second run")
+        return dict(ok=True, nontrivial=nontriv, transitions=2, outcome="ok:qha+rerun")
     return dict(ok=True, nontrivial=nontriv, transitions=1, outcome="ok:qha")
 
 
